@@ -17,6 +17,19 @@ class BoolGen(object):
 
     # ---- operands
     def int_operand(self):
+        # signs in front of a number: any run of + and -, also in front of a counter value or a macro that holds a (negative) number
+        txt, v = self._int_operand()
+        k = self.r.random()
+        if k < 0.15:
+            self.features.add('unary-minus')
+            return '-' + txt, -v
+        if k < 0.22:
+            self.features.add('sign-run')
+            run = self.r.choice(['--', '- -', '+-', '-+-', '+'])
+            return run + txt, (-v if run.count('-') % 2 else v)
+        return txt, v
+
+    def _int_operand(self):
         r = self.r
         k = r.random()
         if k < 0.55:
@@ -29,7 +42,7 @@ class BoolGen(object):
             self.features.add('counter-operand')
             return '\\value{%s}' % n, self.counters[n]
         if not self.nums or r.random() < 0.3:
-            self.nums['zqn' + alpha(len(self.nums))] = r.choice([0, 1, 2, 4, 7, 12, 13, 100])
+            self.nums['zqn' + alpha(len(self.nums))] = r.choice([0, 1, 2, 4, 7, 12, 13, 100, -3, -5])
         n = r.choice(sorted(self.nums))
         self.features.add('macro-operand')
         return '\\%s' % n, self.nums[n]
